@@ -148,18 +148,18 @@ theorem bind_ok' {f : FNode → Except FsErr FNode} {r : Except FsErr FNode} {y 
 /-- entries in the order of the listing, each with the components left to walk from the current directory -/
 abbrev RelE := List Bytes × Entry
 
-def foldRel (d : Defaults) : List RelE → FNode → Except FsErr FNode
+def foldRel (d : Defaults) (k : Nat) : List RelE → FNode → Except FsErr FNode
   | [], X => .ok X
-  | (p, e) :: r, X => (addAt d e p X).bind (foldRel d r)
+  | (p, e) :: r, X => (addAt d e p k X).bind (foldRel d k r)
 
-theorem foldRel_append (d : Defaults) (a b : List RelE) (X : FNode) :
-    foldRel d (a ++ b) X = (foldRel d a X).bind (foldRel d b) := by
+theorem foldRel_append (d : Defaults) (k : Nat) (a b : List RelE) (X : FNode) :
+    foldRel d k (a ++ b) X = (foldRel d k a X).bind (foldRel d k b) := by
   induction a generalizing X with
   | nil => rfl
   | cons pe r ih =>
     obtain ⟨p, e⟩ := pe
     simp only [List.cons_append, foldRel]
-    cases addAt d e p X with
+    cases addAt d e p k X with
     | error x => rfl
     | ok X' => exact ih X'
 
@@ -192,20 +192,9 @@ theorem putChild_children (X c : FNode) : (putChild X c).children = replaceChild
 theorem putChild_isDir (X c : FNode) : (putChild X c).isDir = X.isDir := rfl
 theorem putChild_attr (X c : FNode) : (putChild X c).attr = X.attr := rfl
 
-theorem addAt_name (d : Defaults) (e : Entry) : ∀ (p : List Bytes) (X X' : FNode), addAt d e p X = .ok X' → X'.name = X.name
-  | [], X, X', h => by simp only [addAt] at h; exact overwrite_name h
-  | [n], X, X', h => by
-    simp only [addAt] at h
-    by_cases hd : X.isDir = true
-    · simp only [hd, Bool.not_true, Bool.false_eq_true, if_false] at h
-      cases hc : childByName X.children n with
-      | none => simp only [hc] at h; exact linkChild_name h
-      | some c =>
-        simp only [hc] at h
-        obtain ⟨x, _, rfl⟩ := map_ok' h
-        rfl
-    · simp [hd] at h
-  | n :: m :: rest, X, X', h => by
+theorem addAt_name (d : Defaults) (e : Entry) : ∀ (p : List Bytes) (k : Nat) (X X' : FNode), addAt d e p k X = .ok X' → X'.name = X.name
+  | [], _, X, X', h => by simp only [addAt] at h; exact overwrite_name h
+  | [n], k, X, X', h => by
     simp only [addAt] at h
     by_cases hd : X.isDir = true
     · simp only [hd, Bool.not_true, Bool.false_eq_true, if_false] at h
@@ -219,24 +208,43 @@ theorem addAt_name (d : Defaults) (e : Entry) : ∀ (p : List Bytes) (X X' : FNo
         obtain ⟨x, _, rfl⟩ := map_ok' h
         rfl
     · simp [hd] at h
+  | n :: m :: rest, k, X, X', h => by
+    simp only [addAt] at h
+    by_cases hd : X.isDir = true
+    · simp only [hd, Bool.not_true, Bool.false_eq_true, if_false] at h
+      cases hc : childByName X.children n with
+      | none =>
+        simp only [hc] at h
+        by_cases h1 : k + 1 > sqfsMaxDirNesting
+        · simp [h1] at h
+        · by_cases h2 : X.attr.linkCount = 0xFFFFFFFF
+          · simp [h1, h2] at h
+          · simp only [h1, h2, if_false] at h
+            obtain ⟨x, _, h3⟩ := bind_ok' h
+            exact linkChild_name h3
+      | some c =>
+        simp only [hc] at h
+        obtain ⟨x, _, rfl⟩ := map_ok' h
+        rfl
+    · simp [hd] at h
 
-theorem foldRel_name (d : Defaults) : ∀ (l : List RelE) (X X' : FNode), foldRel d l X = .ok X' → X'.name = X.name
+theorem foldRel_name (d : Defaults) (k : Nat) : ∀ (l : List RelE) (X X' : FNode), foldRel d k l X = .ok X' → X'.name = X.name
   | [], X, X', h => by simp only [foldRel, Except.ok.injEq] at h; rw [h]
   | (p, e) :: r, X, X', h => by
     simp only [foldRel] at h
     obtain ⟨X1, h1, h2⟩ := bind_ok' h
-    rw [foldRel_name d r X1 X' h2, addAt_name d e p X X1 h1]
+    rw [foldRel_name d k r X1 X' h2, addAt_name d e p k X X1 h1]
 
 /-- walking `n :: p` (with more to come) from a directory that has a child `n` is walking `p` below that child -/
-theorem addAt_under (d : Defaults) (e : Entry) (n m : Bytes) (rest : List Bytes) (X c : FNode) (hd : X.isDir = true)
+theorem addAt_under (d : Defaults) (e : Entry) (n m : Bytes) (rest : List Bytes) (k : Nat) (X c : FNode) (hd : X.isDir = true)
     (hc : childByName X.children n = some c) :
-    addAt d e (n :: m :: rest) X = under n (addAt d e (m :: rest)) X := by
+    addAt d e (n :: m :: rest) k X = under n (addAt d e (m :: rest) (k + 1)) X := by
   simp only [addAt, hd, Bool.not_true, Bool.false_eq_true, if_false, hc, under]
 
 /-- the same for a whole run of entries that all start with `n` and go on below it -/
-theorem foldRel_under (d : Defaults) (n : Bytes) :
+theorem foldRel_under (d : Defaults) (n : Bytes) (k : Nat) :
     ∀ (l : List RelE) (X c : FNode), X.isDir = true → childByName X.children n = some c → (∀ pe ∈ l, pe.1 ≠ []) →
-      foldRel d (l.map (fun pe => (n :: pe.1, pe.2))) X = under n (foldRel d l) X
+      foldRel d k (l.map (fun pe => (n :: pe.1, pe.2))) X = under n (foldRel d (k + 1) l) X
   | [], X, c, _, hc, _ => by
     simp only [List.map_nil, foldRel, under, hc, Except.map, putChild, replaceChild_self hc, eta]
   | (p, e) :: r, X, c, hd, hc, hne => by
@@ -246,21 +254,21 @@ theorem foldRel_under (d : Defaults) (n : Bytes) :
       | nil => exact absurd rfl hp
       | cons m rest => exact ⟨m, rest, rfl⟩
     simp only [List.map_cons, foldRel]
-    rw [addAt_under d e n m rest X c hd hc]
+    rw [addAt_under d e n m rest k X c hd hc]
     simp only [under, hc]
-    cases h1 : addAt d e (m :: rest) c with
+    cases h1 : addAt d e (m :: rest) (k + 1) c with
     | error x => rfl
     | ok c1 =>
-      have hn1 : c1.name = n := by rw [addAt_name d e _ c c1 h1]; exact childByName_name hc
+      have hn1 : c1.name = n := by rw [addAt_name d e _ _ c c1 h1]; exact childByName_name hc
       have hc1 : childByName (putChild X c1).children n = some c1 := childByName_replace (c' := c1) hc hn1
-      have ih := foldRel_under d n r (putChild X c1) c1 hd hc1 (fun pe hpe => hne pe (by simp [hpe]))
-      show foldRel d (r.map _) (putChild X c1) = (foldRel d r c1).map (putChild X)
+      have ih := foldRel_under d n k r (putChild X c1) c1 hd hc1 (fun pe hpe => hne pe (by simp [hpe]))
+      show foldRel d k (r.map _) (putChild X c1) = (foldRel d (k + 1) r c1).map (putChild X)
       rw [ih]
       simp only [under, hc1]
-      cases h2 : foldRel d r c1 with
+      cases h2 : foldRel d (k + 1) r c1 with
       | error x => rfl
       | ok c2 =>
-        have hn2 : c1.name = c2.name := by rw [foldRel_name d r c1 c2 h2]
+        have hn2 : c1.name = c2.name := by rw [foldRel_name d (k + 1) r c1 c2 h2]
         show Except.ok (putChild (putChild X c1) c2) = Except.ok (putChild X c2)
         simp only [putChild, FNode.name, FNode.attr, FNode.children, replaceChild_twice c1 c2 _ hn2]
 
@@ -414,6 +422,49 @@ theorem normForest_length (d : Defaults) (ur : Option Bytes) (pa : List Bytes) :
 theorem normTree_name (d : Defaults) (ur : Option Bytes) (comps : List Bytes) (t : Tree) : (normTree d ur comps t).name = t.name := by
   cases t; simp [normTree, FNode.name, Tree.name]
 
+theorem specEntry_flags (ur : Option Bytes) (comps : List Bytes) (n : Node) (e : Entry) (he : specEntry ur comps n = some e) :
+    e.flags = 0 := by
+  cases hk : n.kind <;> simp only [specEntry, hk, Option.some.injEq] at he
+  all_goals first | (exact absurd he (by simp)) | (subst he; rfl)
+
+mutual
+theorem specTree_flags (ur : Option Bytes) (comps : List Bytes) : (t : Tree) → ∀ e ∈ specTree ur comps t, e.flags = 0
+  | .mk name node ch => by
+    intro e he
+    simp only [specTree, List.mem_append] at he
+    rcases he with he | he
+    · cases hs : specEntry ur comps node with
+      | none => simp [hs, Option.toList] at he
+      | some e' =>
+        simp only [hs, Option.toList, List.mem_singleton] at he
+        rw [he]; exact specEntry_flags ur comps node e' hs
+    · by_cases hk : node.kind = .dir
+      · simp only [hk, if_true] at he; exact specForest_flags ur comps ch e he
+      · simp [hk] at he
+theorem specForest_flags (ur : Option Bytes) (parents : List Bytes) : (ts : List Tree) → ∀ e ∈ specForest ur parents ts, e.flags = 0
+  | [] => by intro e he; simp [specForest] at he
+  | .mk name node ch :: ts => by
+    intro e he
+    simp only [specForest, List.mem_append] at he
+    rcases he with he | he
+    · exact specTree_flags ur (parents ++ [name]) (.mk name node ch) e he
+    · exact specForest_flags ur parents ts e he
+end
+
+theorem isHard_of_flags {e : Entry} (h : e.flags = 0) : isHard e = false := by
+  simp [isHard, h]
+
+/-- `mknode` for the entry of a described node, below a directory at depth `k`: no hard link; the nesting limit is
+the only test that can fire -/
+theorem mknodeOf_spec (d : Defaults) (k : Nat) (name : Bytes) (e : Entry) (hfl : e.flags = 0)
+    (hk : isType e.mode sIFDIR = true → k + 1 ≤ sqfsMaxDirNesting) : mknodeOf d k name e = .ok (leafOf d name e) := by
+  have hh := isHard_of_flags hfl
+  unfold mknodeOf
+  by_cases hd : isType e.mode sIFDIR = true
+  · have : ¬ (k + 1 > sqfsMaxDirNesting) := by have := hk hd; omega
+    simp [hd, hh, this]
+  · simp [hd, hh]
+
 /-! ### the entries of a subtree, added below a directory -/
 
 theorem relTree_other (ur : Option Bytes) (abs rel : List Bytes) (name : Bytes) (node : Node) (ch : List Tree)
@@ -423,22 +474,33 @@ theorem relTree_other (ur : Option Bytes) (abs rel : List Bytes) (name : Bytes) 
 
 mutual
 /-- **one subtree**: adding the entries of the described tree `t` (its own, then those of everything below it, in
-the order of the listing) below a directory `X` that has no child of `t`'s name links the rebuilt `t` into `X` -/
-theorem tree_fs (d : Defaults) (hd : d.mtime < 2 ^ 32) (ur : Option Bytes) (pabs : List Bytes) :
+the order of the listing) below a directory `X` at depth `k` that has no child of `t`'s name links the rebuilt `t`
+into `X` -/
+theorem tree_fs (d : Defaults) (hd : d.mtime < 2 ^ 32) (ur : Option Bytes) (pabs : List Bytes) (k : Nat) :
     (t : Tree) → (X : FNode) →
       (match t with
         | .mk name node ch => node.kind ≠ .other ∧ node.Wf ∧ ForestOk ch ∧ DistinctF ch ∧ (ch.map Tree.name).Nodup ∧
             ch.length < 2 ^ 32 - 3 ∧ childByName X.children name = none) →
-      X.isDir = true → X.attr.linkCount < 0xFFFFFFFF →
-      foldRel d (relTree ur (pabs ++ [t.name]) [t.name] t) X
+      Shallow (k + 1) t → X.isDir = true → X.attr.linkCount < 0xFFFFFFFF →
+      foldRel d k (relTree ur (pabs ++ [t.name]) [t.name] t) X
         = .ok (bump X 1 (insertSorted (normTree d ur (pabs ++ [t.name]) t) X.children))
-  | .mk name node ch, X, h, hX, hlc => by
+  | .mk name node ch, X, h, hsh, hX, hlc => by
     obtain ⟨hk, hn, hf, hdf, hnd, hlen, hnone⟩ := h
+    obtain ⟨hsh1, hsh2⟩ := hsh
     obtain ⟨e, he⟩ := specEntry_some ur (pabs ++ [name]) node hk
     have hleaf : leafOf d name e = .mk name (attrOf d ur (pabs ++ [name]) node 0) [] := by
       simp only [leafOf, leaf_attr d hd ur _ node hn e he]
-    have hadd : addAt d e [name] X = .ok (bump X 1 (insertSorted (leafOf d name e) X.children)) := by
-      simp only [addAt, hX, Bool.not_true, Bool.false_eq_true, if_false, hnone]
+    have hmk : mknodeOf d k name e = .ok (leafOf d name e) := by
+      apply mknodeOf_spec d k name e (specEntry_flags ur _ node e he)
+      intro hdir
+      apply hsh1
+      -- the entry has the type bits of a directory only for a directory
+      cases hkk : node.kind <;> simp only [specEntry, hkk, Option.some.injEq] at he
+      all_goals first | rfl | (exact absurd he (by simp)) | skip
+      all_goals subst he
+      all_goals simp [isType_perm _ _ _ hn.1, ifmtOf, sIFDIR, sIFREG, sIFLNK, sIFBLK, sIFCHR, sIFIFO, sIFSOCK] at hdir
+    have hadd : addAt d e [name] k X = .ok (bump X 1 (insertSorted (leafOf d name e) X.children)) := by
+      simp only [addAt, hX, Bool.not_true, Bool.false_eq_true, if_false, hnone, hmk, Except.bind]
       exact linkChild_ok X _ hlc
     simp only [Tree.name, relTree, he, Option.toList, List.map_cons, List.map_nil, List.cons_append, List.nil_append, foldRel, hadd,
       Except.bind]
@@ -449,7 +511,7 @@ theorem tree_fs (d : Defaults) (hd : d.mtime < 2 ^ 32) (ur : Option Bytes) (pabs
       have hself : childByName (bump X 1 (insertSorted (leafOf d name e) X.children)).children name = some (leafOf d name e) := by
         rw [bump_children]
         exact childByName_insert_self (leafOf d name e) X.children hnone
-      rw [foldRel_under d name _ _ (leafOf d name e) (by rw [bump_isDir]; exact hX) hself (relForest_ne ur _ ch)]
+      rw [foldRel_under d name k _ _ (leafOf d name e) (by rw [bump_isDir]; exact hX) hself (relForest_ne ur _ ch)]
       simp only [under, hself]
       -- the children, added below the fresh leaf
       have hleafdir : (leafOf d name e).isDir = true := by
@@ -457,7 +519,7 @@ theorem tree_fs (d : Defaults) (hd : d.mtime < 2 ^ 32) (ur : Option Bytes) (pabs
         have hm : (attrOf d ur (pabs ++ [name]) node 0).mode = node.perm ||| sIFDIR := by simp [attrOf, hdir, ifmtOf]
         simp only [FNode.isDir, FNode.attr, hm, isType_perm _ _ _ hn.1]
         decide
-      have hkids := forest_fs d hd ur (pabs ++ [name]) ch (leafOf d name e) hf hdf hnd hleafdir
+      have hkids := forest_fs d hd ur (pabs ++ [name]) (k + 1) ch (leafOf d name e) hf hdf hnd hsh2 hleafdir
         (fun t _ => by rw [hleaf]; rfl)
         (by rw [hleaf]; simp only [FNode.attr, attrOf, hdir, if_true]; omega)
       rw [hkids]
@@ -475,30 +537,31 @@ theorem tree_fs (d : Defaults) (hd : d.mtime < 2 ^ 32) (ur : Option Bytes) (pabs
     · simp only [hdir, if_false, foldRel]
       congr 2
       simp only [normTree, hdir, if_false, hleaf, List.length_nil]
-/-- **the children of one directory**, one after the other -/
-theorem forest_fs (d : Defaults) (hd : d.mtime < 2 ^ 32) (ur : Option Bytes) (pabs : List Bytes) :
-    (ts : List Tree) → (X : FNode) → ForestOk ts → DistinctF ts → (ts.map Tree.name).Nodup → X.isDir = true →
+/-- **the children of one directory** (at depth `k`), one after the other -/
+theorem forest_fs (d : Defaults) (hd : d.mtime < 2 ^ 32) (ur : Option Bytes) (pabs : List Bytes) (k : Nat) :
+    (ts : List Tree) → (X : FNode) → ForestOk ts → DistinctF ts → (ts.map Tree.name).Nodup → ShallowF (k + 1) ts → X.isDir = true →
       (∀ t ∈ ts, childByName X.children t.name = none) → X.attr.linkCount + ts.length < 0xFFFFFFFF →
-      foldRel d (relForest ur pabs [] ts) X = .ok (bump X (cnt ts) (normForest d ur pabs X.children ts))
-  | [], X, _, _, _, _, _, _ => by
+      foldRel d k (relForest ur pabs [] ts) X = .ok (bump X (cnt ts) (normForest d ur pabs X.children ts))
+  | [], X, _, _, _, _, _, _, _ => by
     simp only [relForest, foldRel, cnt, normForest, bump_zero]
-  | .mk name node ch :: ts, X, hf, hdf, hnd, hX, hnone, hlc => by
+  | .mk name node ch :: ts, X, hf, hdf, hnd, hsh, hX, hnone, hlc => by
     obtain ⟨⟨_, hn, hch⟩, hts⟩ := hf
     obtain ⟨⟨⟨hndc, hlenc⟩, hdc⟩, hdts⟩ := hdf
+    obtain ⟨hsh1, hshts⟩ := hsh
     have hnd' : (ts.map Tree.name).Nodup := (List.nodup_cons.1 hnd).2
     have hnotin : name ∉ ts.map Tree.name := (List.nodup_cons.1 hnd).1
     simp only [relForest, List.nil_append, foldRel_append]
     by_cases hk : node.kind = .other
     · rw [relTree_other ur _ _ name node ch hk]
       simp only [foldRel, Except.bind, cnt, normForest, hk, if_true]
-      exact forest_fs d hd ur pabs ts X hts hdts hnd' hX (fun t ht => hnone t (by simp [ht])) (by simp at hlc; omega)
-    · have h1 := tree_fs d hd ur pabs (.mk name node ch) X
-        ⟨hk, hn, hch, hdc, hndc, hlenc, hnone (.mk name node ch) (by simp)⟩ hX (by simp at hlc; omega)
+      exact forest_fs d hd ur pabs k ts X hts hdts hnd' hshts hX (fun t ht => hnone t (by simp [ht])) (by simp at hlc; omega)
+    · have h1 := tree_fs d hd ur pabs k (.mk name node ch) X
+        ⟨hk, hn, hch, hdc, hndc, hlenc, hnone (.mk name node ch) (by simp)⟩ hsh1 hX (by simp at hlc; omega)
       simp only [Tree.name] at h1
       rw [h1]
       simp only [Except.bind, cnt, normForest, hk, if_false]
-      have h2 := forest_fs d hd ur pabs ts (bump X 1 (insertSorted (normTree d ur (pabs ++ [name]) (.mk name node ch)) X.children))
-        hts hdts hnd' (by rw [bump_isDir]; exact hX)
+      have h2 := forest_fs d hd ur pabs k ts (bump X 1 (insertSorted (normTree d ur (pabs ++ [name]) (.mk name node ch)) X.children))
+        hts hdts hnd' hshts (by rw [bump_isDir]; exact hX)
         (fun t ht => by
           rw [bump_children, childByName_insert_other _ _ _ (by
             rw [normTree_name]
@@ -526,7 +589,7 @@ theorem specEntry_name (ur : Option Bytes) (comps : List Bytes) (n : Node) (e : 
 
 /-- none of the argument checks of `fstree_add_generic` fires for the entry of a described node -/
 theorem addEntry_spec (d : Defaults) (ur : Option Bytes) (comps : List Bytes) (n : Node) (hn : n.Wf) (e : Entry)
-    (he : specEntry ur comps n = some e) (X : FNode) : addEntry d e X = addAt d e (pathOf e.name) X := by
+    (he : specEntry ur comps n = some e) (X : FNode) : addEntry d e X = addAt d e (pathOf e.name) 0 X := by
   obtain ⟨hp, hu, hg, hdv, _⟩ := hn
   have h1 : (isType e.mode sIFLNK && e.extra.isNone) = false := by
     cases hk : n.kind <;> simp only [specEntry, hk, Option.some.injEq] at he
@@ -536,7 +599,7 @@ theorem addEntry_spec (d : Defaults) (ur : Option Bytes) (comps : List Bytes) (n
     cases hk : n.kind <;> simp only [specEntry, hk, Option.some.injEq] at he
     all_goals first | (exact absurd he (by simp)) | subst he
     all_goals simp; omega
-  have h3 : ((isType e.mode sIFBLK || isType e.mode sIFCHR) && decide (e.rdev > 0xFFFFFFFF)) = false := by
+  have h3 : ((isType e.mode sIFBLK || isType e.mode sIFCHR) && !isHard e && decide (e.rdev > 0xFFFFFFFF)) = false := by
     cases hk : n.kind <;> simp only [specEntry, hk, Option.some.injEq] at he
     all_goals first | (exact absurd he (by simp)) | subst he
     all_goals simp; try omega
@@ -544,7 +607,7 @@ theorem addEntry_spec (d : Defaults) (ur : Option Bytes) (comps : List Bytes) (n
 
 /-- a pair of the annotated entry list is usable by `addAll`: the path is what `fstree_get_node_by_path` cuts the
 name into, and the argument checks pass -/
-def PairOk (d : Defaults) (pe : RelE) : Prop := ∀ X, addEntry d pe.2 X = addAt d pe.2 pe.1 X
+def PairOk (d : Defaults) (pe : RelE) : Prop := ∀ X, addEntry d pe.2 X = addAt d pe.2 pe.1 0 X
 
 mutual
 theorem relTree_ok (d : Defaults) (ur : Option Bytes) (comps : List Bytes) (hc : ∀ c ∈ comps, GoodName c) :
@@ -582,7 +645,7 @@ theorem relForest_ok (d : Defaults) (ur : Option Bytes) (parents : List Bytes) (
 end
 
 theorem addAll_of_foldRel (d : Defaults) :
-    ∀ (l : List RelE) (X X' : FNode), (∀ pe ∈ l, PairOk d pe) → foldRel d l X = .ok X' → addAll d (l.map (·.2)) X = (X', none)
+    ∀ (l : List RelE) (X X' : FNode), (∀ pe ∈ l, PairOk d pe) → foldRel d 0 l X = .ok X' → addAll d (l.map (·.2)) X = (X', none)
   | [], X, X', _, h => by
     simp only [foldRel, Except.ok.injEq] at h
     simp [addAll, h]
@@ -602,22 +665,24 @@ theorem or_perm_isDir (x : Nat) : isType (sIFDIR ||| (x &&& 0o7777)) sIFDIR = tr
 
 /-- **the whole listing**: the decoded entries of the tree of an image, added in the order of the listing to a fresh
 `fstree_t`, give the rebuilt tree -/
-theorem build_root (d : Defaults) (hd : d.mtime < 2 ^ 32) (ur : Option Bytes) (t : Tree) (ht : RootOk t) (hdist : Distinct t) :
+theorem build_root (d : Defaults) (hd : d.mtime < 2 ^ 32) (ur : Option Bytes) (t : Tree) (ht : RootOk t) (hdist : Distinct t)
+    (hsh : Shallow 0 t) :
     addAll d (specTree ur [] t) (initRoot d) = (normTree d ur [] t, none) := by
   cases t with
   | mk name node ch =>
     obtain ⟨hname, hk, hn, hf⟩ := ht
     obtain ⟨⟨hnd, hlen⟩, hdf⟩ := hdist
+    obtain ⟨_, hshf⟩ := hsh
     subst hname
     rw [← relTree_snd ur [] [] (.mk [] node ch)]
     obtain ⟨e, he⟩ := specEntry_some ur [] node (by rw [hk]; decide)
     have hem := entry_mode_dir ur [] node hn hk e he
     -- the root's own line overwrites the implicitly created root
     let R1 : FNode := .mk [] { (initRoot d).attr with uid := e.uid, gid := e.gid, mode := e.mode, mtime := d.mtime % 2 ^ 32, implicit := false } []
-    have hover : addAt d e [] (initRoot d) = .ok R1 := by
+    have hover : addAt d e [] 0 (initRoot d) = .ok R1 := by
       simp only [addAt, initRoot, overwrite, or_perm_isDir, hem, Bool.not_true, Bool.or_self, Bool.false_eq_true, if_false, R1, FNode.attr]
     have hR1dir : R1.isDir = true := hem
-    have hkids := forest_fs d hd ur [] ch R1 hf hdf hnd hR1dir (fun t _ => rfl) (by simp only [R1, FNode.attr, initRoot]; omega)
+    have hkids := forest_fs d hd ur [] 0 ch R1 hf hdf hnd hshf hR1dir (fun t _ => rfl) (by simp only [R1, FNode.attr, initRoot]; omega)
     apply addAll_of_foldRel d _ _ _ (relTree_ok d ur [] (by simp) (.mk [] node ch) ⟨hn, hf⟩)
     simp only [relTree, he, Option.toList, List.map_cons, List.map_nil, hk, if_true, List.cons_append, List.nil_append, foldRel, hover,
       Except.bind, hkids]
